@@ -28,7 +28,7 @@ def run(tier):
                       "IvsTrace checks the contract (each added set retrievable region by region through its mapped "
                       "index) and the reader's compute_delta at probe locations against exact rational tent scalars; "
                       "fvar normalisation and avar segment maps are checked as relations (end points, clamping, "
-                      "monotone, within one F2Dot14 unit of the exact line). The variation stores of the corpus fonts (HVAR, VVAR, MVAR, GDEF, COLR) are read raw and every row read-fonts decodes is compared with Ivs.tla's decoding of the bytes.")
+                      "monotone, within one F2Dot14 unit of the exact line). The variation stores of the corpus fonts (HVAR, VVAR, MVAR, GDEF, COLR) are read raw and every row read-fonts decodes is compared with Ivs.tla's decoding of the bytes. A store of 70 000 (thorough 140 000) rows of one shape plus two small encodings is built, every row is looked up through the returned index and the reader, and the raw bytes of ~270 rows (around the 65 535-row split, the tail, every 1499th) are decoded and judged by IvsTrace!TIvsRow.")
     ck.assumptions = ["region and location coordinates are multiples of 0.25 so that exact rational arithmetic fits TLC integers",
                       "HVAR advance/side-bearing deltas through skrifa's GlyphMetrics are not covered yet",
                       "in the quick tier every 8th enumerated history is shipped to TLC (all go through the builder and readers)"]
@@ -56,6 +56,11 @@ def run(tier):
     res = vlib.run_harness("fv-write", ["c11", "corpus", "--out", t3])
     ck.add_harness("record:corpus", res, traces=False)
     validate(ck, wd, "corpus", t3)
+    # more rows of one shape than one subtable holds: every row through the reader, a sample of rows by IvsTrace!TIvsRow
+    t4 = os.path.join(wd, "big.ndjson")
+    res = vlib.run_harness("fv-write", ["c11", "big", "--rows", 70000 if tier == "quick" else 140000, "--out", t4])
+    ck.add_harness("record:big", res, traces=False)
+    validate(ck, wd, "big", t4)
     return ck.finish()
 
 
